@@ -88,6 +88,7 @@ theorem ofLisp_toLisp : (j : J) → Faithful j = true → ofLisp (toLisp j) = .o
   | .int i, _ => by simp [toLisp, ofLisp]
   | .flo t, _ => by simp [toLisp, ofLisp]
   | .str s, _ => by simp [toLisp, ofLisp]
+  | .time t, _ => by simp [toLisp, ofLisp]
   | .arr [], h => by simp [Faithful] at h
   | .arr (x :: xs), h => by
       simp only [Faithful, Bool.and_eq_true] at h
@@ -189,6 +190,7 @@ theorem faithful_of_roundtrip : (j : J) → KeysDistinct j = true → ofLisp (to
   | .int _, _, _ => rfl
   | .flo _, _, _ => rfl
   | .str _, _, _ => rfl
+  | .time _, _, _ => rfl
   | .arr [], _, h => by simp [toLisp, toLispL, ofLisp] at h
   | .arr (x :: xs), hk, h => by
       simp only [KeysDistinct] at hk
